@@ -36,6 +36,9 @@ RULE = (
     "non-repeaters+max-repetitions, OIDs in order, NULL / typed SET values). The request-id is "
     "decided behaviourally: an agent echoing the decoded id must be accepted, one answering "
     "id+1 refused. Non-trivial: >=1 datagram checked; distinct by (op, level, arg classes)."
+    " Half of the switched clients share everything the two families can share (same communit"
+    "y for v1<->v2c, same user and passwords between v3 levels); context engine ids also of z"
+    "ero octets only."
 )
 ASSUMPTIONS = [
     "the first datagram of a fresh v3 client is the discovery probe (C12 owns its content); it must still decode under the strict decoder",
